@@ -94,23 +94,30 @@ Proof. exact strategy_targets_offered. Qed.
 Print Assumptions C20_strategy_targets_offered.
 
 (* ---- schema[type][field] returns the operation that was asked for -------------------------------- *)
-(* full statement: for every history of lookups each result is the stateless specification.  FALSE: *)
-Theorem C20_lookup_returns_requested_refuted : exists c h,
-  run_lookups c [] h <> map (spec_of c) h.
-Proof. exists client_ok, h_cross. exact lookups_refuted. Qed.
-Print Assumptions C20_lookup_returns_requested_refuted.
+(* for every schema (same-named fields under Query and Mutation included) and every history of lookups each result is
+   the stateless specification.  The cache is keyed by type.field since fe80b0ba; root_names_dotless is name
+   well-formedness (GraphQL names have no dot; graphql-core refuses others), needed because the key is a string *)
+Theorem C20_lookup_returns_requested : forall c h,
+  root_names_dotless c = true -> run_lookups c [] h = map (spec_of c) h.
+Proof. exact lookups_full. Qed.
+Print Assumptions C20_lookup_returns_requested.
 
-(* strongest true restrictions: histories in which no field name is used under two type keys ... *)
-Theorem C20_lookup_returns_requested_partial : forall c h,
-  hist_consistent h = true -> run_lookups c [] h = map (spec_of c) h.
-Proof. exact lookups_partial. Qed.
-Print Assumptions C20_lookup_returns_requested_partial.
+(* SENTINEL (the cache keyed by the field name alone, before fe80b0ba): Mutation.foo then Query.foo returns the mutation
+   operation, while the cache as it is now answers both orders correctly *)
+Theorem C20_field_keyed_cache_refuted : exists c h,
+  root_names_dotless c = true /\
+  run_lookups_fk c [] h <> map (spec_of c) h /\ run_lookups c [] h = map (spec_of c) h.
+Proof. exists client_ok, h_cross. exact field_keyed_cache_refuted. Qed.
+Print Assumptions C20_field_keyed_cache_refuted.
 
-(* ... and every history on a schema without a mutation type *)
-Theorem C20_lookup_single_root : forall c h,
-  c_mutation c = None -> run_lookups c [] h = map (spec_of c) h.
-Proof. exact lookups_single_root. Qed.
-Print Assumptions C20_lookup_single_root.
+Theorem C20_lookup_hypotheses_satisfiable :
+  root_names_dotless client_ok = true /\
+  run_lookups client_ok [] [(n_Mutation, n_foo); (n_Query, n_foo); (n_Query, n_baz); (n_Mutation, n_foo); (n_Long, n_foo)] =
+    [LOp {| o_root := RMutation; o_type := n_Mutation; o_field := n_foo |};
+     LOp {| o_root := RQuery; o_type := n_Query; o_field := n_foo |}; LNoField;
+     LOp {| o_root := RMutation; o_type := n_Mutation; o_field := n_foo |}; LNoType].
+Proof. exact lookups_nonvacuous. Qed.
+Print Assumptions C20_lookup_hypotheses_satisfiable.
 
 (* ---- scalar table -------------------------------------------------------------------------------- *)
 (* {**get_extra_scalar_strategies(), **CUSTOM_SCALARS}: a registered strategy wins, every other extra scalar stays *)
